@@ -34,13 +34,21 @@ Proof.
       specialize (IH _ _ eq_refl). cbn. lia.
 Qed.
 
-(* super_depth always terminates within its fuel *)
-Lemma super_depth_go_total : forall fuel s cnt sx,
-  (length s < fuel)%nat -> super_depth_go fuel s cnt sx <> None.
+Lemma strip_prefix_length p : forall s r, strip_prefix p s = Some r -> length s = (length p + length r)%nat.
 Proof.
-  induction fuel as [|fuel IH]; intros s cnt sx Hl; [lia|].
-  cbn [super_depth_go]. destruct (split_once_str s_super_dot s) as [[a post]|] eqn:E; [|discriminate].
-  apply IH. apply split_once_str_length in E. cbn in E. lia.
+  induction p as [|x p IH]; intros s r H; cbn in H.
+  - injection H as <-. reflexivity.
+  - destruct s as [|y s]; [discriminate|]. destruct (x =? y); [|discriminate].
+    apply IH in H. cbn. lia.
+Qed.
+
+(* super_depth always terminates within its fuel *)
+Lemma super_depth_go_total : forall fuel s cnt,
+  (length s < fuel)%nat -> super_depth_go fuel s cnt <> None.
+Proof.
+  induction fuel as [|fuel IH]; intros s cnt Hl; [lia|].
+  cbn [super_depth_go]. destruct (strip_prefix s_super_dot s) as [post|] eqn:E; [|discriminate].
+  apply IH. apply strip_prefix_length in E. cbn in E. lia.
 Qed.
 Lemma super_depth_total s : super_depth s <> None.
 Proof. unfold super_depth. apply super_depth_go_total. lia. Qed.
@@ -416,4 +424,55 @@ Proof.
     assert (Hx : exists m, sm_find (ns_prefix (cs_ns s ++ removelast (segments name)) ++ last (segments name) []) (cs_jump s) = Some m)
       by (rewrite ns_prefix_app, <- app_assoc, join_segments; eauto).
     apply Ht in Hx. congruence.
+Qed.
+
+(* ------------------------------------------------------------------ findings N-C08-1 / N-C08-2 (repaired in /repo 4a89bbc) *)
+Definition b_ (l : list N) : str := l.
+Definition w_xsuper : str := [120; 115; 117; 112; 101; 114].
+Definition w_bar : str := [98; 97; 114].
+Definition w_util : str := [117; 116; 105; 108].
+Definition w_f : str := [102].
+Definition w_m1 : str := [109; 49].
+Definition fn0 (cards : list card) : function := {| f_args := []; f_cards := cards |}.
+
+(* N-C08-1: the former super_depth counted the substring "super." inside `xsuper.bar` *)
+Lemma super_depth_legacy_refuted :
+  super_depth_legacy (w_xsuper ++ [c_dot] ++ w_bar) = Some (1%nat, Some w_bar) /\
+  super_depth (w_xsuper ++ [c_dot] ++ w_bar) = Some (0%nat, None).
+Proof. split; reflexivity. Qed.
+
+(* root { imports = ["xsuper.bar"]; xsuper { bar }; main = [Call bar] } now compiles, and the call
+   carries the handle of xsuper.bar (function number 1 in the compiler's order) *)
+Definition n_c08_1_module : module :=
+  Module [(w_xsuper, Module [] [(w_bar, fn0 [CScalarNil])] [])]
+         [(s_main, fn0 [CCall w_bar []])]
+         [w_xsuper ++ [c_dot] ++ w_bar].
+Lemma n_c08_1_repaired :
+  spec_resolve (Module [(w_xsuper, Module [] [(w_bar, fn0 [CScalarNil])] [])] [(s_main, fn0 [CCall w_bar []])] [])
+               [] [w_xsuper ++ [c_dot] ++ w_bar] w_bar = SFound ([w_xsuper], w_bar) /\
+  exists B, compile n_c08_1_module {| o_recursion_limit := 64; o_debug := true |} = COk B /\
+            In (IFunctionPointer (handle_from_u64 1) 0)
+               (match decode (p_bytecode B) with Some l => map snd l | None => [] end).
+Proof.
+  split; [reflexivity|].
+  destruct (compile n_c08_1_module _) as [B| | |] eqn:E; try (vm_compute in E; discriminate).
+  exists B. split; [reflexivity|]. vm_compute in E. injection E as <-. vm_compute.
+  repeat (first [left; reflexivity | right]).
+Qed.
+
+(* N-C08-2: xsuper { util { f }; m1 { imports = ["super.util"]; g = [Call util.f] } } now compiles and
+   the call carries the handle of xsuper.util.f *)
+Definition n_c08_2_module : module :=
+  Module [(w_xsuper, Module [(w_util, Module [] [(w_f, fn0 [CScalarNil])] []);
+                             (w_m1, Module [] [([103], fn0 [CCall (w_util ++ [c_dot] ++ w_f) []])]
+                                           [s_super ++ [c_dot] ++ w_util])] [] [])]
+         [(s_main, fn0 [])] [].
+Lemma n_c08_2_repaired :
+  exists B, compile n_c08_2_module {| o_recursion_limit := 64; o_debug := true |} = COk B /\
+            In (IFunctionPointer (handle_from_u64 1) 0)
+               (match decode (p_bytecode B) with Some l => map snd l | None => [] end).
+Proof.
+  destruct (compile n_c08_2_module _) as [B| | |] eqn:E; try (vm_compute in E; discriminate).
+  exists B. split; [reflexivity|]. vm_compute in E. injection E as <-. vm_compute.
+  repeat (first [left; reflexivity | right]).
 Qed.
